@@ -1,6 +1,6 @@
 (* Lemmas about build_response, the error ranking, handler selection and serve. *)
 From Coq Require Import ZArith List String Bool Ascii Arith Lia.
-From KV Require Import Base.Json Base.Dicts Model.JsonPatch Model.MergeDsl Model.Admission.
+From KV Require Import Base.Json Base.Dicts Model.JsonPatch Model.MergeDsl Model.Admission Proofs.MergeDsl.
 Import ListNotations.
 Open Scope string_scope.
 Open Scope Z_scope.
@@ -393,4 +393,194 @@ Proof.
   cbv zeta. split.
   - vm_compute. repeat constructor; simpl; intuition discriminate.
   - eexists. split; [vm_compute; reflexivity|]. split; reflexivity.
+Qed.
+
+(* ============================================================================================
+   Exactly which outcomes reach build_response: no guard on the ids.
+   ============================================================================================ *)
+
+Lemma last_by_id_snoc id sel h :
+  last_by_id id (sel ++ [h]) = if String.eqb id (h_id h) then Some h else last_by_id id sel.
+Proof.
+  induction sel as [|x sel IH]; simpl.
+  - destruct (String.eqb id (h_id h)); reflexivity.
+  - rewrite IH. destruct (String.eqb id (h_id h)); reflexivity.
+Qed.
+
+Lemma last_by_id_some id sel h : last_by_id id sel = Some h -> In h sel /\ h_id h = id.
+Proof.
+  induction sel as [|x sel IH]; simpl; [discriminate|].
+  destruct (last_by_id id sel) as [h'|].
+  - intro H. injection H as ->. destruct (IH eq_refl). split; [right|]; assumption.
+  - destruct (String.eqb id (h_id x)) eqn:E; [|discriminate].
+    intro H. injection H as <-. apply String.eqb_eq in E. split; [left; reflexivity|symmetry; exact E].
+Qed.
+
+Lemma last_by_id_exists id sel : In id (map h_id sel) -> exists h, last_by_id id sel = Some h.
+Proof.
+  induction sel as [|x sel IH]; simpl; [contradiction|].
+  intros [H | H].
+  - destruct (last_by_id id sel); [eauto|]. subst id. rewrite String.eqb_refl. eauto.
+  - destruct (IH H) as (h & ->). eauto.
+Qed.
+
+Lemma ids_first_in i sel : In i (ids_first sel) <-> In i (map h_id sel).
+Proof.
+  induction sel as [|x sel IH]; simpl; [tauto|].
+  rewrite filter_In, IH, negb_true_iff. split.
+  - intros [H | [H _]]; auto.
+  - intros [H | H]; [left; exact H|].
+    destruct (String.eqb_spec i (h_id x)) as [->|Hne]; [left; reflexivity|right; split; [exact H|reflexivity]].
+Qed.
+
+Lemma ids_first_nodup sel : NoDup (ids_first sel).
+Proof.
+  induction sel as [|x sel IH]; simpl; [constructor|].
+  constructor.
+  - rewrite filter_In, negb_true_iff. intros [_ H]. rewrite String.eqb_refl in H. discriminate.
+  - apply NoDup_filter. exact IH.
+Qed.
+
+Lemma ids_first_snoc sel h :
+  ids_first (sel ++ [h]) =
+  if mem_str (h_id h) (map h_id sel) then ids_first sel else ids_first sel ++ [h_id h].
+Proof.
+  induction sel as [|x sel IH]; simpl; [reflexivity|].
+  rewrite IH. destruct (mem_str (h_id h) (map h_id sel)) eqn:Em.
+  - now rewrite orb_true_r.
+  - rewrite orb_false_r, filter_app. simpl.
+    destruct (String.eqb (h_id h) (h_id x)); simpl; [now rewrite app_nil_r|reflexivity].
+Qed.
+
+Lemma mem_str_in k l : mem_str k l = true <-> In k l.
+Proof.
+  unfold mem_str. rewrite existsb_exists. split.
+  - intros (x & Hin & He). apply String.eqb_eq in He. now subst.
+  - intro H. exists k. split; [exact H|apply String.eqb_refl].
+Qed.
+
+Lemma set_map_nodup {V} (g g' : string -> V) k v L :
+  NoDup L -> In k L -> g' k = v -> (forall i, i <> k -> g' i = g i) ->
+  set k v (map (fun i => (i, g i)) L) = map (fun i => (i, g' i)) L.
+Proof.
+  intros Hnd Hin Hk Hother. induction L as [|a L IH]; [contradiction|].
+  inversion Hnd as [|? ? Hna HndL]; subst. simpl.
+  destruct (String.eqb_spec k a) as [->|Hne].
+  - f_equal. apply map_ext_in. intros i Hi. f_equal. symmetry. apply Hother. intros ->. contradiction.
+  - destruct Hin as [->|Hin]; [congruence|].
+    rewrite IH by assumption. f_equal. f_equal. symmetry. apply Hother. congruence.
+Qed.
+
+(* the outcomes dict, exactly: per id (first-occurrence order) the outcome of the LAST selected handler with that id *)
+Lemma collect_outcomes_exact run sel : collect_outcomes run sel = effective_outcomes run sel.
+Proof.
+  unfold collect_outcomes, effective_outcomes.
+  induction sel as [|h sel IH] using rev_ind; [reflexivity|].
+  rewrite fold_left_app. simpl. rewrite IH, ids_first_snoc.
+  assert (Hg : forall i, i <> h_id h -> effective_outcome run (sel ++ [h]) i = effective_outcome run sel i).
+  { intros i Hi. unfold effective_outcome. rewrite last_by_id_snoc.
+    destruct (String.eqb_spec i (h_id h)); [contradiction|reflexivity]. }
+  assert (Hk : effective_outcome run (sel ++ [h]) (h_id h) = snd (run h)).
+  { unfold effective_outcome. rewrite last_by_id_snoc, String.eqb_refl. reflexivity. }
+  destruct (mem_str (h_id h) (map h_id sel)) eqn:Em.
+  - apply set_map_nodup; [apply ids_first_nodup| |exact Hk|exact Hg].
+    apply ids_first_in. apply mem_str_in. exact Em.
+  - rewrite set_fresh.
+    + rewrite map_app. simpl. rewrite Hk. f_equal.
+      apply map_ext_in. intros i Hi. f_equal. symmetry. apply Hg. intros ->.
+      apply ids_first_in in Hi. apply mem_str_in in Hi. congruence.
+    + rewrite map_map. simpl. rewrite map_id. intro Hin.
+      apply ids_first_in in Hin. apply mem_str_in in Hin. congruence.
+Qed.
+
+Section ServeExact.
+  Variable from_diff : json -> json -> list jop.
+
+  (* allowed, exactly, for EVERY handler set: no handler that is the last one of its id raised *)
+  Lemma serve_allowed_exact uid c hs run patch fns body r :
+    serve from_diff uid c hs run patch fns body = Ok r ->
+    (r_allowed r = true <->
+     forall h, In h (select_webhooks c hs) -> last_by_id (h_id h) (select_webhooks c hs) = Some h -> snd (run h) = None).
+  Proof.
+    intro Hs. apply serve_ok_inv in Hs. destruct Hs as (ops & _ & ->).
+    rewrite allowed_iff_no_outcome_exception, collect_outcomes_exact. unfold effective_outcomes.
+    set (sel := select_webhooks c hs). split.
+    - intros H h Hin Hlast. specialize (H (h_id h) (effective_outcome run sel (h_id h))).
+      assert (He : effective_outcome run sel (h_id h) = snd (run h)) by (unfold effective_outcome; now rewrite Hlast).
+      rewrite <- He. apply H.
+      apply in_map_iff. exists (h_id h). split; [reflexivity|].
+      apply ids_first_in. apply in_map. exact Hin.
+    - intros H id e Hin. apply in_map_iff in Hin. destruct Hin as (i & Heq & Hi). injection Heq as <- <-.
+      apply ids_first_in in Hi. destruct (last_by_id_exists _ _ Hi) as (h & Hl).
+      unfold effective_outcome. rewrite Hl. destruct (last_by_id_some _ _ _ Hl) as [Hin Hid].
+      apply H; [exact Hin|]. rewrite Hid. exact Hl.
+  Qed.
+
+  (* the two directions that hold without any guard *)
+  Lemma serve_no_raise_allowed uid c hs run patch fns body r :
+    serve from_diff uid c hs run patch fns body = Ok r ->
+    (forall h, In h (select_webhooks c hs) -> snd (run h) = None) -> r_allowed r = true.
+  Proof. intros Hs H. apply (serve_allowed_exact _ _ _ _ _ _ _ _ Hs). intros h Hin _. apply H. exact Hin. Qed.
+
+  Lemma serve_denied_raised uid c hs run patch fns body r :
+    serve from_diff uid c hs run patch fns body = Ok r ->
+    r_allowed r = false -> exists h, In h (select_webhooks c hs) /\ snd (run h) <> None.
+  Proof.
+    intros Hs Hden. apply serve_ok_inv in Hs. destruct Hs as (ops & _ & ->).
+    simpl in Hden. rewrite collect_outcomes_exact in Hden.
+    assert (Hex : exists kv, In kv (effective_outcomes run (select_webhooks c hs)) /\ snd kv <> None).
+    { induction (effective_outcomes run (select_webhooks c hs)) as [|[i e] l IH]; simpl in Hden; [discriminate|].
+      destruct e as [e|].
+      - exists (i, Some e). split; [left; reflexivity|discriminate].
+      - destruct (IH Hden) as (kv & Hin & Hne). exists kv. split; [right; exact Hin|exact Hne]. }
+    destruct Hex as ([i e] & Hin & Hne). unfold effective_outcomes in Hin.
+    apply in_map_iff in Hin. destruct Hin as (i' & Heq & Hi). injection Heq as <- <-.
+    unfold effective_outcome in Hne. simpl in Hne.
+    destruct (last_by_id i' (select_webhooks c hs)) as [h|] eqn:Hl; [|congruence].
+    exists h. split; [apply (last_by_id_some _ _ _ Hl)|exact Hne].
+  Qed.
+
+  (* message and code, exactly, for every handler set *)
+  Lemma serve_status_exact uid c hs run patch fns body r :
+    serve from_diff uid c hs run patch fns body = Ok r ->
+    let kept := errors_of (effective_outcomes run (select_webhooks c hs)) in
+    (kept = [] -> r_status r = None) /\
+    (kept <> [] -> exists e, first_min kept e /\ r_status r = Some (message e, code e)).
+  Proof.
+    intro Hs. apply serve_ok_inv in Hs. destruct Hs as (ops & _ & ->).
+    cbv zeta. rewrite <- collect_outcomes_exact. apply status_most_specific.
+  Qed.
+
+  (* a response is always produced, and it is this one *)
+  Lemma serve_total_exact uid c hs run patch fns body :
+    is_obj patch = true -> wf patch = true -> is_obj body = true ->
+    exists ops, as_json_patch from_diff patch fns body = Ok ops /\
+      serve from_diff uid c hs run patch fns body =
+      Ok {| r_uid := uid;
+            r_allowed := forallb (fun kv => match snd kv with None => true | Some _ => false end)
+                                 (effective_outcomes run (select_webhooks c hs));
+            r_warnings := match flat_map (fun h => fst (run h)) (select_webhooks c hs) with [] => None | ws => Some ws end;
+            r_patch := match ops with [] => None | _ => Some ops end;
+            r_status := match sort_errors (errors_of (effective_outcomes run (select_webhooks c hs))) with
+                        | e :: _ => Some (message e, code e)
+                        | [] => None
+                        end |}.
+  Proof.
+    intros Ho Hwf Hb. destruct (dsl_is_merge patch body Ho Hwf Hb) as (b' & Ha & _).
+    assert (Hops : exists ops, as_json_patch from_diff patch fns body = Ok ops).
+    { unfold as_json_patch. destruct (patch_is_empty patch && is_nil fns); [eauto|].
+      unfold body_to_be. rewrite Ha. simpl. eauto. }
+    destruct Hops as (ops & Hops). exists ops. split; [exact Hops|].
+    unfold serve. rewrite Hops. simpl. unfold build_response. rewrite collect_outcomes_exact.
+    unfold collect_warnings.
+    destruct (flat_map (fun h => fst (run h)) (select_webhooks c hs)); destruct ops; reflexivity.
+  Qed.
+End ServeExact.
+
+(* non-vacuity: in the duplicate-id example the LAST handler of the id passes, so the exact rule says "allowed" *)
+Example allowed_exact_example :
+  forall h, In h (select_webhooks any_cause dup_handlers) ->
+            last_by_id (h_id h) (select_webhooks any_cause dup_handlers) = Some h -> snd (dup_run h) = None.
+Proof.
+  intros h [<- | [<- | []]]; vm_compute; [discriminate|reflexivity].
 Qed.
